@@ -154,6 +154,14 @@ def run(ctx):
                                     "flagged": sum(1 for r in recs if any(r["uns"]))}
     small = dict(recs[0])
     ctx.sample({"kind": "large", "record": {k: small[k] for k in ("n", "cl", "cr", "cg5", "uns", "rounds", "terminated")}})
+    # known finding F-05m: wall-like weights (1e10) at desired positions of the order of 1e8 and beyond.  The instances are
+    # pinned (their seed does not depend on VERIF_SEED), re-solved on every run, and judged by the same clauses
+    out = core.run_driver("d_vpsc.py", stdin_obj={"seed": 20261002, "count": 40, "mode": "heavyfar"})
+    frecs = out["records"]
+    ffails = ctx.validate("VpscBig", "VpscBig.cfg", frecs, per_shard=400)
+    report_failures(ctx, ffails, frecs, "heavyfar")
+    ctx.evaluations += len(frecs)
+    ctx.extra["heavy_far_instances"] = {"count": len(frecs), "failing": len({i for i, _ in ffails})}
 
 
 def hash_mode(m):
